@@ -111,7 +111,7 @@ def main():
                            (1 << 64) - 1]):
         files['raw-tagged-%d' % i] = hdr(E_TAGGED, 0, M_RAW) + tagged(v)
     small = [5, 5, 7, 5, 9, 7]
-    wide = list(range(1000, 1300))
+    wide = list(range(257))  # 257 entries: two-byte indices
     for e, name in ((E_DICT, 'dict'), (E_DICTINTO, 'dictinto')):
         files['raw-%s-small' % name] = hdr(e, 0, M_RAW) + dict_encode(small)
         files['raw-%s-width2' % name] = hdr(e, 0, M_RAW) + dict_encode(wide)
